@@ -78,19 +78,17 @@ func (s *rrSegFetcher) doCheck() {
 		return
 	}
 
-	// we have a lock, so this has to break at some point
+	// look at every stream at most once: a marker stream would not do, because
+	// it may itself be removed below and the loop would then never terminate
 	var state *ConsumeState = nil
-	var first *ConsumeState = nil
-	for {
+	for tries := len(s.streams); ; tries-- {
+		if tries <= 0 {
+			return // we've gone full circle
+		}
+
 		state = s.next()
 		if state == nil {
 			return // nothing to do here
-		}
-
-		if first == nil {
-			first = state
-		} else if state == first {
-			return // we've gone full circle
 		}
 
 		if state.complete {
